@@ -997,21 +997,38 @@ pub fn signature(pieces: &[RPiece], sig: &mut Signature) {
     }
 }
 
-/// every literal text a resolved value can show (for string-table checks), in reading order
+/// the entries a resolved value contributes to its locale's string table: adjacent text / literal
+/// pieces are joined (a lone number or bool is not a string), and an empty body is the empty string
 pub fn literal_texts(pieces: &[RPiece], out: &mut Vec<String>) {
-    // adjacent Text/Lit pieces are joined exactly like the parser's `reduce`
-    let mut cur: Option<String> = None;
-    let flush = |cur: &mut Option<String>, out: &mut Vec<String>| {
-        if let Some(s) = cur.take() {
-            if !s.is_empty() {
+    if pieces.is_empty() {
+        out.push(String::new());
+        return;
+    }
+    // (text, number of joined pieces, contains a Text piece)
+    let mut cur: Option<(String, usize, bool)> = None;
+    fn flush(cur: &mut Option<(String, usize, bool)>, out: &mut Vec<String>) {
+        if let Some((s, n, has_text)) = cur.take() {
+            if has_text || n >= 2 {
                 out.push(s);
             }
         }
-    };
+    }
     for p in pieces {
         match p {
-            RPiece::Text(t) => cur.get_or_insert_with(String::new).push_str(t),
-            RPiece::Lit(l) => cur.get_or_insert_with(String::new).push_str(&l.display()),
+            RPiece::Text(t) => {
+                if t.is_empty() {
+                    continue;
+                }
+                let c = cur.get_or_insert_with(|| (String::new(), 0, false));
+                c.0.push_str(t);
+                c.1 += 1;
+                c.2 = true;
+            }
+            RPiece::Lit(l) => {
+                let c = cur.get_or_insert_with(|| (String::new(), 0, false));
+                c.0.push_str(&l.display());
+                c.1 += 1;
+            }
             RPiece::Var { .. } => flush(&mut cur, out),
             RPiece::Comp { children, .. } => {
                 flush(&mut cur, out);
